@@ -13,6 +13,8 @@
 
 #include "mapcommon.h"
 
+#include <cds/opt/compare.h>
+#include <cds/intrusive/options.h>
 #include <cds/intrusive/details/split_list_base.h>
 #include <cds/intrusive/details/feldman_hashset_base.h>
 
@@ -39,6 +41,10 @@ namespace fam_hashsets {
             }
         }
         size_t operator()( Item const& i ) const { return ( *this )( i.key ); }
+        // generic overload, as in libcds' own test hash functors (hash1): anything else with a `tag` member.
+        // MichaelHashMap<IterableKVList>::upsert() does not compile without it because it hashes the mapped value.
+        template <typename T>
+        auto operator()( T const& v ) const -> decltype( size_t( v.tag )) { return ( *this )( int( v.tag )); }
     };
 
     // Feldman: operations are keyed by the HASH, so key -> hash must be injective on 0..7.
@@ -386,7 +392,7 @@ namespace fam_hashsets {
         typename std::enable_if<K == L_ITERABLE>::type do_update( Res& r, int op, int key, int tag )
         {
             std::pair<bool, bool> p;
-            if (( tag & 3 ) == 3 )
+            if ( key & 1 )      // odd keys: upsert (no functor), even keys: update with functor
                 p = s.upsert( Item( key, tag ), op == O_UPDATE );        // no functor: the replaced item is not observable
             else {
                 int calls = 0;
@@ -705,7 +711,7 @@ namespace fam_hashsets {
         typename std::enable_if<K == L_ITERABLE>::type do_update( Res& r, int op, int key, int tag )
         {
             std::pair<bool, bool> p;
-            if (( tag & 3 ) == 3 )
+            if ( key & 1 )      // odd keys: upsert (no functor), even keys: update with functor
                 p = s.upsert( key, MVal( tag ), op == O_UPDATE );
             else {
                 int calls = 0;
